@@ -33,6 +33,7 @@ type PFlags struct {
 	NoFaults  bool
 	MaxRec    int // largest argument given to recursion templates
 	Atoms     bool // atoms in throw points (an update function that re-sets its atom and then throws)
+	Bulk      bool // now and then one data-heavy form (hundreds of reader-macro shorthands in one text)
 	HotStr    bool // string literals over the hot alphabet (tab, CR, quotes, JSON-looking multi-line text …) instead of plain ones
 	Malformed bool // malformed special forms among the planted faults (unspecified by the reference interpreter: differential use only)
 	FnEq      bool // = applied to functions (the reference interpreter leaves it unspecified: only for differential use between routes)
@@ -338,6 +339,22 @@ func Program(t *rapid.T, f PFlags) Prog {
 			outer = lst(val.V{K: val.List, L: append([]val.V{sym("fn"), lst()}, body...)})
 		}
 		forms = append(forms, call("trace!", outer), call("trace!", sym("ld")))
+	}
+	if f.Bulk && Chance(t, "bulk", 25) {
+		g.use("bulk-data")
+		n := []int{100, 300, 700}[g.pick("bulkn", 3)]
+		xs := make([]val.V, n)
+		for i := range xs {
+			switch i % 3 {
+			case 0:
+				xs[i] = call("quote", sym("a"))
+			case 1:
+				xs[i] = call("quasiquote", val.I(i))
+			default:
+				xs[i] = call("quote", lst(val.I(i)))
+			}
+		}
+		forms = append(forms, call("trace!", call("count", val.V{K: val.List, L: append([]val.V{sym("list")}, xs...)})))
 	}
 	// a macro that is re-defined between two evaluations of the same call site
 	if f.Macros && Chance(t, "macro-redef", 5) {
